@@ -86,6 +86,17 @@ def run(kind, train, dt, delay, interp, cob, sob, inplace, selectors):
                 espk = float(train[mm]) if mm >= 0 else 0.0
             if abs(float(spk) - espk) > 1e-6:
                 return {"what": f"C04/{kind}/spike_at", "input": dict(inp, step=n, selector=sel), "expected": espk, "actual": float(spk)}
+    # clear(): every record back at rest - present values and every delayed read within the supported delay
+    syn.clear()
+    if float(syn.current.abs().max()) != 0.0 or bool(syn.spike.any()):
+        return {"what": f"C04/{kind}/clear_leaves_state", "input": inp, "expected": "zero current, no spike", "actual": [syn.current.flatten().tolist(), syn.spike.flatten().tolist()]}
+    k = 0.0
+    while k <= delay + 1e-9:
+        t = torch.full((1, 2, 1), float(min(k, delay)))
+        cur, spk = syn.current_at(t).reshape(-1)[0].item(), syn.spike_at(t).reshape(-1)[0].item()
+        if abs(cur) > 1e-9 or bool(spk):
+            return {"what": f"C04/{kind}/clear_leaves_history", "input": dict(inp, selector=k), "expected": "rest", "actual": [cur, bool(spk)]}
+        k += dt
     return None
 
 
